@@ -2,7 +2,7 @@
    C17_ProofsLex.v, C17_ProofsParse.v and C17_ProofsMerge.v; this file assembles the statements used by
    C17_Props.v. *)
 From Coq Require Import List NArith Bool Lia Relations String Ascii PeanoNat.
-From Dae Require Import C17_Spec C17_Model C17_Toks C17_MergeSpec C17_ProofsLex C17_ProofsParse C17_ProofsMerge C17_ProofsNoCrash C17_Paths C17_ProofsPaths.
+From Dae Require Import C17_Spec C17_Model C17_Toks C17_MergeSpec C17_ProofsLex C17_ProofsParse C17_ProofsMerge C17_ProofsNoCrash C17_Paths C17_ProofsPaths C17_Schema C17_Build.
 From Dae.gen Require Import Extracted_C17.
 Import ListNotations.
 Open Scope N_scope.
@@ -83,6 +83,20 @@ Lemma C17_string_prefix_not_enough_proof :
   let f := C17_sample_sibling_file in
   firstn (List.length (render d)) (render (dir_of f)) = render d /\ inside d f = false.
 Proof. split; vm_compute; reflexivity. Qed.
+
+(* ParamParser on the EMPTY section: there is no early exit - the required check is reached *)
+Lemma C17_empty_section_required_proof :
+  forall schema decodes fu sid st,
+    find_struct schema sid = Some st ->
+    section_error schema decodes (S fu) (KStruct sid) [] =
+    if existsb f_required (s_fields st) then Some EMissingParam else None.
+Proof.
+  intros schema decodes fu sid st H. cbn [section_error]. rewrite H.
+  replace (existsb (fun f => f_required f && negb (key_assigned [] (f_key f))) (s_fields st))
+    with (existsb f_required (s_fields st)); [reflexivity|].
+  induction (s_fields st) as [|f r IH]; [reflexivity|].
+  cbn [existsb]. rewrite IH. unfold key_assigned at 1. cbn [existsb negb]. rewrite andb_true_r. reflexivity.
+Qed.
 
 (* a tree that uses every production *)
 Definition C17_sample_config : sconfig :=
